@@ -119,6 +119,8 @@ pub fn ticks_3c(property: &'static str, offset: u32, q: bool) -> EvCell {
             EvOp::World(Op::Vis(0, 1, true)),
             EvOp::EmitS(SK::E1, Mode::Broadcast, None),
             EvOp::EmitS(SK::EM, Mode::Broadcast, Some(0)),
+            // a reference to an entity that only some of the recipients can see
+            EvOp::EmitS(SK::EM, Mode::Broadcast, Some(1)),
         ],
         rounds: if q { 3 } else { 4 },
         tick_choice: true,
